@@ -35,6 +35,8 @@ var vfChOps = []vfChOp{
 	{Name: "reader s2 leaves", Kind: "chnleave", Sess: "s2"}, {Name: "reader s3a leaves", Kind: "chnleave", Sess: "s3a"}, {Name: "reader s3b leaves", Kind: "chnleave", Sess: "s3b"},
 	{Name: "reader s2 unsubscribes", Kind: "chnunsub", Sess: "s2"}, {Name: "reader s3a unsubscribes", Kind: "chnunsub", Sess: "s3a"},
 	{Name: "member leaves", Kind: "grpleave", Sess: "s1"}, {Name: "member attaches", Kind: "grpsub", Sess: "s1"},
+	{Name: "member's second session attaches", Kind: "grpsub", Sess: "s1b"}, {Name: "member's second session leaves", Kind: "grpleave", Sess: "s1b"},
+	{Name: "member publishes without echo", Kind: "pub", Sess: "s1", NoEcho: true}, {Name: "member's second session publishes", Kind: "pub", Sess: "s1b"},
 	{Name: "member attaches under the channel name", Kind: "memberchn", Sess: "s1"},
 	{Name: "reader s2 note read 1", Kind: "note", Sess: "s2", What: "read", Seq: 1}, {Name: "reader s2 note recv 2", Kind: "note", Sess: "s2", What: "recv", Seq: 2},
 	{Name: "reader s2 note kp", Kind: "note", Sess: "s2", What: "kp"}, {Name: "reader s3a note read 9", Kind: "note", Sess: "s3a", What: "read", Seq: 9},
@@ -54,11 +56,11 @@ type vfChWorld struct {
 
 func vfChSetup() *vfChWorld {
 	w := vfBoot(vfBootOpts{})
-	x := &vfChWorld{w: w, cl: map[string]*vfClient{}, owner: map[string]int{"s0": 0, "s1": 1, "s2": 2, "s3a": 3, "s3b": 3, "s4": 4}}
+	x := &vfChWorld{w: w, cl: map[string]*vfClient{}, owner: map[string]int{"s0": 0, "s1": 1, "s1b": 1, "s2": 2, "s3a": 3, "s3b": 3, "s4": 4}}
 	for i := 0; i < 5; i++ {
 		x.users = append(x.users, w.vfMakeUser(fmt.Sprintf("u%d", i), auth.LevelAuth, map[string]any{"fn": fmt.Sprintf("U%d", i)}))
 	}
-	for _, s := range []string{"s0", "s1", "s2", "s3a", "s3b", "s4"} {
+	for _, s := range []string{"s0", "s1", "s1b", "s2", "s3a", "s3b", "s4"} {
 		c := w.vfConnect(s)
 		vsched.Quiesce()
 		if code := c.Login(x.users[x.owner[s]]); code != 200 {
@@ -341,6 +343,8 @@ func vfChExec(hist []int, last bool) vfXResult {
 						bad("C09:note-relayed-to-channel-reader", fmt.Sprintf("session %s (channel reader) received %s", n, vfFrameString(f)))
 					case n == op.Sess:
 						bad("C09:note-echoed:chan", fmt.Sprintf("the originating session received %s", vfFrameString(f)))
+					case op.What == "kp" && x.owner[n] == ui:
+						bad("C09:typing-note-to-typist", fmt.Sprintf("another session of the typist (%s) received %s", n, vfFrameString(f)))
 					case fromReader:
 						bad("C09:reader-note-relayed", fmt.Sprintf("a channel reader's note reached %s: %s", n, vfFrameString(f)))
 					case !valid:
